@@ -80,6 +80,21 @@ fn run_case(seed: u64, idx: u64, _tier: Tier, out: &mut CaseOut) {
     if rng.chance(1, 4) {
         cfg.overflow = true;
     }
+    // styles that change the text (white-space) on the root wrappers: every route
+    // must honour them alike
+    if rng.chance(1, 6) {
+        cfg.use_doc_css = true;
+        let sel = *rng.pick(&["body", "html", "body > div", "p", "div"]);
+        let ws = *rng.pick(&["pre", "pre-wrap"]);
+        if rng.chance(1, 2) {
+            cfg.css.push((Origin::User, format!("{} {{ white-space: {}; }}", sel, ws)));
+        } else {
+            let mut v = format!("<style>{} {{ white-space: {}; color: #102030 }}</style>", sel, ws).into_bytes();
+            v.extend_from_slice(&input);
+            input = v;
+        }
+        out.inc("histories_with_css");
+    }
     // width history
     let n = rng.range(2, 6);
     let mut widths: Vec<usize> = Vec::new();
